@@ -13,6 +13,7 @@ TRUSTED_BASE = [
 PROPS = {
     "C02": {
         "coq": "Properties/C02.v",
+        "coq_extra": ["Properties/C02src.v"],
         "pinchecks": ["PinChecks/PcEffector.v", "PinChecks/PcEffectorGen.v"] + ["PinChecks/PcBody_enf.v", "PinChecks/PcEnforceGen.v", "PinChecks/PcEnforcerGen.v", "PinChecks/PcBody_fmacros.v"],
         "gen": "c02",
         "level_text": "Coq theorems (c02_result, c02_early_final, c02_cap_complete, c02_next_readable, c02_forced_*) prove for every "
@@ -29,7 +30,7 @@ PROPS = {
     },
     "C03": {
         "coq": "Properties/C03.v",
-        "coq_extra": ["Properties/C03M.v", "Properties/RoleManagerGen.v"],
+        "coq_extra": ["Properties/C03M.v", "Properties/RoleManagerGen.v", "Properties/C03src.v"],
         "pinchecks": ["PinChecks/PcRoleGraph.v", "PinChecks/PcRoleManagerGen.v"] + ["PinChecks/PcBody_frolemanager.v"],
         "gen": "c03",
         "level_text": "Coq theorems over Model/RoleGraph.v, for every history of add_link/delete_link/clear and every query: the per-domain "
